@@ -183,6 +183,9 @@ pub fn for_each_satisfaction<FP, FF>(
             let spend = Spend::simple(bitcoin::ScriptBuf::from_bytes(target.spk.clone()), lt, seq);
             let mut assets = make_assets(world, &spend, target, case, *km, pm);
             assets.force_timelocks = Some(true);
+            // the signer keeps the signature hash types it announced when the plan was made
+            assets.ecdsa_hashtype = probe.ecdsa_hashtype;
+            assets.tap_hashtype = probe.tap_hashtype;
             let r3 = guarded(std::panic::AssertUnwindSafe(|| {
                 let sat = satisfier(&assets, target);
                 plan.satisfy(&sat)
